@@ -44,6 +44,10 @@ func init() {
 		rtPkg + ".Implies":      rtImplies,
 		rtPkg + ".LoopBound":    rtLoopBound,
 		rtPkg + ".AllocLimit":   rtAllocLimit,
+		rtPkg + ".FatalIsViolation": func(ex *Exec, fn *ssa.Function, args []Value) (Value, *Panic) {
+			ex.fatalIsFinding = args[0].(*Term).IsTrue()
+			return nil, nil
+		},
 		rtPkg + ".WorkLimit": func(ex *Exec, fn *ssa.Function, args []Value) (Value, *Panic) {
 			ex.workLimit = args[0].(*Term).Int()
 			ex.workBase = ex.instrs
@@ -187,6 +191,9 @@ func stubNoop(ex *Exec, fn *ssa.Function, args []Value) (Value, *Panic) {
 }
 
 func stubFatal(ex *Exec, fn *ssa.Function, args []Value) (Value, *Panic) {
+	if ex.fatalIsFinding {
+		ex.reportSite("fatal", "exit", "log.Fatal reached: the library ends the process")
+	}
 	ex.observes = append(ex.observes, "process-exit")
 	ex.endPath("process-exit (log.Fatal)")
 	return nil, nil
